@@ -249,6 +249,14 @@ class CallMixin:
         for p, t in c.params.items():
             if p in env:
                 env[p] = self.adapt_arg(env[p], t, st)
+                if t[0] == 'obj' and t[1] != 'Any' and isinstance(env[p], VObj) and env[p].sort not in (t[1], 'Any'):
+                    # an object of another kind than the callee is specified for (e.g. an internal key where a public
+                    # value is expected): outside the callee's contract -- a failing precondition, not a crash
+                    self.oblige(st, 'pre', '%s:kind-of-%s' % (ast.unparse(node)[:60], p),
+                                '%s is specified for a %s as %s, the call passes a %s' % (qual, t[1], p, env[p].sort),
+                                z3.BoolVal(False), node.lineno,
+                                props=tuple(c.property) + tuple(self.cur[0].property))
+                    env[p] = fresh_val(t, p, st)
         for fv_ in c.extra.get('free', {}):
             # nested function: its free variables are the caller-visible bindings of the enclosing function
             v = st.lookup(fv_)
